@@ -1,0 +1,31 @@
+//go:build verif
+
+package proxy
+
+// Verification hook for property C27 (resource-pack handlers): re-exports the internal
+// resourcepack package for the external verification harness. No logic.
+
+import (
+	"github.com/robinbraemer/event"
+
+	"go.minekube.com/gate/pkg/edition/java/proxy/internal/resourcepack"
+)
+
+type (
+	VerifC27Handler                = resourcepack.Handler
+	VerifC27Player                 = resourcepack.Player
+	VerifC27Info                   = resourcepack.Info
+	VerifC27ResponseBundle         = resourcepack.ResponseBundle
+	VerifC27BundleDelimiterHandler = resourcepack.BundleDelimiterHandler
+	VerifC27Origin                 = resourcepack.Origin
+)
+
+const (
+	VerifC27PluginOnProxyOrigin    = resourcepack.PluginOnProxyOrigin
+	VerifC27DownstreamServerOrigin = resourcepack.DownstreamServerOrigin
+)
+
+// VerifC27NewHandler forwards to resourcepack.NewHandler with the no-op event manager.
+func VerifC27NewHandler(p VerifC27Player) VerifC27Handler {
+	return resourcepack.NewHandler(p, event.Nop)
+}
